@@ -11,7 +11,7 @@ import_ckl()
 from ckl.interpreter import Interpreter  # noqa: E402
 from ckl.errors import CklRuntimeError, CklSyntaxError  # noqa: E402
 
-PRELUDE = "def LOG = []; def log(v) do append(LOG, v); v end; "
+PRELUDE = "def LOG = []; def log(v) do append(LOG, v); v end; require IO import [str_input]; "
 
 
 # ------------------------------------------------------------------ values
@@ -67,7 +67,8 @@ def norm(p):
 
 
 # ------------------------------------------------------------------ rendering
-SIMPLE = {"lit", "var", "call", "list", "set", "map", "obj", "method", "member", "compr", "compr2", "log", "index"}
+SIMPLE = {"lit", "var", "call", "list", "set", "map", "obj", "method", "member", "compr", "compr2", "log", "index",
+          "input", "evalstr"}
 
 
 def paren(s):
@@ -220,6 +221,11 @@ def src(n):
         c = a[0]
         base = src(c) if c["n"] in ("var", "call", "index", "member", "list") else paren(src(c))
         return f"{base}[{expr(a[1])}]"
+    if t == "input":          # the lines of the list literal as one text
+        lines = ["".join(chr(c) for c in it["a"][0]["v"]["s"]) for it in a[0]["a"]]
+        return "str_input(" + absval.quote("\n".join(lines)) + ")"
+    if t == "evalstr":
+        return "eval(" + absval.quote(src(a[0])) + ")"
     if t == "compr2":
         kind, val, id1, w1, l1, id2, w2, l2, cond = a
         sep = " for " if n["s"] == "product" else " also for "
